@@ -1,4 +1,5 @@
 import Ln.Basic
+import Ln.Commit
 namespace LnDrv
 open Ln
 /-- comma separated bytes; a token `n*b` stands for `n` repetitions of byte `b` -/
@@ -25,6 +26,19 @@ partial def loop (h : IO.FS.Stream) : IO Unit := do
       | _ => none
     let r := lineStats edits
     IO.println s!"{r.added} {r.removed} {r.changed}"
+  | "commit" :: mg :: cs =>
+    -- change: I:name:lines|b   D:name:lines|b   M:name:E3,I2,D1 (or M:name:- for an empty script)
+    let parseScript := fun (t : String) => if t = "-" then [] else (t.splitOn ",").filterMap fun e =>
+      let n := (e.drop 1).toNat!
+      match e.get 0 with
+      | 'E' => some (Edit.equal n) | 'I' => some (Edit.insert n) | 'D' => some (Edit.delete n) | _ => none
+    let chgs := cs.filterMap fun c => match c.splitOn ":" with
+      | ["I", n, l] => some (Chg.ins n.toNat! l.toNat?)
+      | ["D", n, l] => some (Chg.del n.toNat! l.toNat?)
+      | ["M", n, t] => some (Chg.mod n.toNat! (parseScript t))
+      | _ => none
+    let res := (consume (mg = "1") chgs).mergeSort (fun a b => a.1 ≤ b.1)
+    IO.println (if res.isEmpty then "-" else " ".intercalate (res.map fun (n, st) => s!"{n}={st.added}/{st.removed}/{st.changed}"))
   | _ => IO.println "bad-op"
   loop h
 def main : IO Unit := do loop (← IO.getStdin)
